@@ -56,6 +56,9 @@ def callStep (k : Kind) (s : PyVal) (j : Json) : PyVal × Json :=
   else if call == "dumps".toList then
     let r := dumps k { Manifest.init with payload := s }
     (r.1.payload, exceptJson jstr r.2)
+  else if call == "validate".toList then
+    -- `obj.validate()` + `obj.header.validate()`: the top-level classes have no validators, the header of a fresh object is "0.0"
+    (s, match validateClass k.className [] with | .ok () => jok Json.null | .error e => errJson e)
   else
     let r := step s (addOp k j)
     (r.1, outJson r.2)
@@ -65,6 +68,18 @@ def callTrace (k : Kind) : PyVal → List Json → List Json
   | s, j :: rest =>
     let r := callStep k s j
     Json.mkObj [("out", r.2), ("state", ofPy r.1)] :: callTrace k r.1 rest
+
+/-- the re-parsed document with `header.version` / `header.type` overwritten (documents at the version gates) -/
+def withHeader (doc : PyVal) (j : Json) : PyVal :=
+  match doc with
+  | .dict top =>
+    match lookup top "header".toList with
+    | some (.dict h) =>
+      let h1 := match optStrOf j "version" with | some v => put h "version".toList (.str v) | none => h
+      let h2 := match optStrOf j "type" with | some t => put h1 "type".toList (.str t) | none => h1
+      .dict (put top "header".toList (.dict h2))
+    | _ => doc
+  | _ => doc
 
 /-- one step of a session on ONE object: add / dumps / loads of its own last dump / loads of another manifest's dump -/
 def sessionStep (k : Kind) (other : Except Err PyVal) (st : Manifest × Option PyVal) (j : Json) :
@@ -81,7 +96,7 @@ def sessionStep (k : Kind) (other : Except Err PyVal) (st : Manifest × Option P
     (({ m with payload := r.1 }, st.2), exceptJson jstr r.2)
   else if call == "loads_own".toList then
     match st.2 with
-    | some doc => let r := loadS k m (reparse doc); ((r.1, st.2), outJson r.2)
+    | some doc => let r := loadS k m (withHeader (reparse doc) j); ((r.1, st.2), outJson r.2)
     | none => (st, jerr "NoText")
   else if call == "loads_other".toList then
     match other with
